@@ -22,19 +22,19 @@ CLAIMS = {
         note="trusts the harness parsers and the simomp model; inputs are generated families (2-240 sequences, 1-1500 residues), not the full input space",
         tech="deterministic simulation: seeded OpenMP schedules + invariant on every run"),
     "C02": dict(cat="exploration", ref="4/C02",
-        text="Every alignment request is executed by the sequential elision of kalign (reference model, twice with different heap garbage) and by 3-16 simulated OpenMP executions whose team sizes, task deferral, task pick order, thread interleaving (at hook events and at compiler-instrumented memory accesses), stalls and nesting ICV are drawn from one seed; all observable bytes must be equal and the ordering invariants (merge after children, meetup after both halves, k-means reduce after splits, join after subtrees) are checked online from KALIGN_VERIF events.",
-        note="simomp is a model of a conforming OpenMP runtime under sequential consistency; weak-memory effects and libgomp-specific behaviour are out of reach; seeded search, not exhaustive",
+        text="Every alignment request is executed by the sequential elision of kalign (reference model, twice with different heap garbage) and by 3-16 simulated OpenMP executions whose team sizes, task deferral, task pick order, thread interleaving (at hook events and at compiler-instrumented memory accesses), stalls and nesting ICV are drawn from one seed; the alignment (files, returned rows, return codes, stdout without kalign's log lines) must be byte-identical and the ordering invariants (merge after children, meetup after both halves, k-means reduce after splits, join after subtrees) are checked online from KALIGN_VERIF events.",
+        note="simomp is a model of a conforming OpenMP runtime (self-tested by check.py omptest): sequential consistency for plain accesses, x86-TSO store buffers for atomics in the preempt build; reordering of plain racy accesses and libgomp-specific behaviour are out of reach; seeded search, not exhaustive",
         tech="deterministic simulation with seeded scheduler (fibers behind the libgomp ABI), reference-model byte equality, online ordering invariants"),
     "C10": dict(cat="exploration", ref="4/C10",
         text="At every node completion (KALIGN_VERIF MERGE_END) the node's sub-alignment is snapshotted; at the end of the run the final alignment - both the gap vectors at RUN_END and the rows kalign finally hands out (finalised object after kalign_run, rows returned by kalign()) - is projected onto each node's members (all-gap columns removed) and must equal the snapshot, for every internal node of the tree actually used, under the sequential reference and seeded schedules including access-level preemption.",
         note="snapshot is a 64-bit canonical hash of member ranks and residue columns; nodes above 4M residues are skipped and counted",
         tech="deterministic simulation: seeded schedules + node-completion snapshots vs final projection"),
     "C04": dict(cat="exploration", ref="4/C04",
-        text="The same records are delivered to kalign through the simulated file layer in different presentations (gap insertion, FASTA/aligned FASTA/MSF/Clustal written by independent emitters, line widths, blank lines, CRLF, 1-4 sources in order, stdin vs files, seeded read chunking, library path and CLI); parsed output rows must equal those of the canonical single-FASTA presentation.",
+        text="The same records are delivered to kalign through the simulated file layer in different presentations (gap insertion, FASTA/aligned FASTA/MSF/Clustal written by independent emitters, line widths, blank lines, CRLF, ragged padding, 1-4 sources in order incl. stdin, pipe-like files and an empty source, seeded read chunking, library path and CLI); parsed output rows must equal those of the canonical single-FASTA presentation.",
         note="presentations are generated well-formed files; the textual re-presentation dimension is input generation, the simulator contributes sources, stdin and chunking",
         tech="deterministic simulation of the stream layer (fopencookie chunking, multi-source, stdin) + differential oracle"),
     "C05": dict(cat="fault_enumeration", ref="4/C05",
-        text="CLI and library runs under ASan+UBSan with junk-filled heap over well-formed, mutated and hostile inputs and option strings; for each sampled workload every single-fault placement of the gating I/O fault kinds (stat/fopen errors for input and output, read EIO at each read index, stdin kinds) is enumerated; outcome must be success-with-valid-alignment or failure-status-with-message; never a sanitizer report, signal, leak on success, hang, or result that depends on uninitialised memory; a valgrind sample covers uninitialised-value use.",
+        text="CLI and library runs under ASan+UBSan with junk-filled heap over well-formed, mutated and hostile inputs and option strings; 1-3 input sources, in-place output, reformat/check calls between read and run; for each sampled workload every single-fault placement of the gating I/O fault kinds (stat/fopen errors for every input source and for the output, read EIO at each read index, directory as input, stdin kinds) is enumerated, plus the runtime fault "team cannot be started" for absurd thread counts; outcome must be success-with-valid-alignment or failure-status-with-message; never a sanitizer report, signal, leak on success, hang, or result that depends on uninitialised memory; a valgrind sample covers uninitialised-value use.",
         note="allocation failure and write-side disk faults are simulated but not gating (no listed property speaks about them); hang detection uses a wall-clock watchdog and step budgets",
         tech="deterministic simulation with I/O fault enumeration (simfs), sanitizers, junk-fill differential for uninitialised reads"),
     "C06": dict(cat="exploration", ref="4/C06",
@@ -46,8 +46,8 @@ CLAIMS = {
         note="narrow claim: observation at the simulated file layer with the clock under control; alignment dimension is plain generation",
         tech="deterministic simulation (file layer + clock) + strict independent parsers"),
     "C16": dict(cat="exploration", ref="4/C16",
-        text="Seeded histories of API calls (kalign(), read with 1-3 files, run, write, compare, free, CLI main) over several msa slots are executed in one process; each call's result must equal the result of its data slice executed alone in a fresh process, under different schedules and heap garbage; after the objects are freed the allocator's live set of kalign allocations must be empty.",
-        note="fresh-process reference of the same build; leak clause gates on histories whose calls all returned OK",
+        text="Seeded histories of API calls (kalign(), read with 1-3 files incl. sources that are refused, run, write, compare, reformat_settings_msa, kalign_check_msa, free, CLI main) over several msa slots are executed in one process; each call's result must equal the result of its data slice executed alone in a fresh process, under different schedules and heap garbage; after the objects are freed the allocator's live set of kalign allocations must be empty.",
+        note="fresh-process reference of the same build (a refused source is left out of the reference: it must change nothing); the leak clause also gates after failed library calls, not after a failed CLI main",
         tech="deterministic simulation over call histories with fresh-process reference model and allocation accounting"),
 }
 
